@@ -25,7 +25,8 @@ def errName : Err → String
   | .eof => "eof" | .unexpectedEOF => "ueof" | .tooLarge => "toolarge" | .headerTooLarge => "hdrtoolarge"
   | .badVarint => "badvarint" | .badCid => "badcid" | .hashMismatch => "mismatch"
   | .badHeader => "badheader" | .badVersion => "badversion" | .noRoots => "noroots"
-  | .zeroSection => "zerosection" | .nonCanonical => "noncanon" | .other => "other"
+  | .zeroSection => "zerosection" | .cidTooLarge => "cidtoolarge" | .notFound => "notfound"
+  | .closed => "closed" | .finalized => "finalized" | .nonCanonical => "noncanon" | .other => "other"
 
 def cidHex (c : Cid) : String := toHex c.bytes
 
